@@ -150,38 +150,24 @@ impl ChannelHandle {
         self.handle.call_nowait(method)
     }
 
-    pub(crate) fn send_content(
+    /// Hands a content-bearing method to the I/O thread together with its content header and
+    /// body frames, as one buffer: frames the I/O thread itself originates on this channel (e.g.
+    /// the answer to a server's cancel) must not end up between them.
+    pub(crate) fn send_with_content<M: IntoAmqpClass + Debug>(
         &mut self,
-        mut content: &[u8],
+        method: M,
+        content: &[u8],
         class_id: u16,
         properties: &AMQPProperties,
     ) -> Result<()> {
         trace!(
-            "sending content header on channel {} (class_id = {}, len = {})",
+            "sending method with content on channel {} (class_id = {}, len = {}): {:?}",
             self.channel_id(),
             class_id,
-            content.len()
+            content.len(),
+            method
         );
         self.handle
-            .send_content_header(class_id, content.len(), properties)?;
-
-        while content.len() > self.frame_max {
-            trace!(
-                "sending partial content body frame on channel {} (len = {})",
-                self.channel_id(),
-                self.frame_max
-            );
-            self.handle.send_content_body(&content[..self.frame_max])?;
-            content = &content[self.frame_max..];
-        }
-        if !content.is_empty() {
-            trace!(
-                "sending final content body frame on channel {} (len = {})",
-                self.channel_id(),
-                content.len()
-            );
-            self.handle.send_content_body(content)?;
-        }
-        Ok(())
+            .send_with_content(method, content, class_id, properties, self.frame_max)
     }
 }
